@@ -115,8 +115,12 @@ func c09Conn(srv *svc.Server, cid int, seed uint64, nframes int) (viol [][2]stri
 	}()
 	defer close(acked)
 	for i, q := range reqs {
-		rx, ok, to := t.Next(60 * time.Second)
+		rx, ok, to := t.Next(45 * time.Second)
 		if to {
+			if serverAnswersFreshConnection(srv.Addr) {
+				bad("reply|an owed reply never came although the server answers fresh connections at once", fmt.Sprintf("conn %d after %d replies", cid, i))
+				return viol, false, checked, nil
+			}
 			return viol, true, checked, nil
 		}
 		if !ok {
